@@ -42,6 +42,9 @@ pub struct Case {
     /// or the counterparty's commitment 1 was signed before holder commitment 1 is validated)
     #[serde(default)]
     pub other_ahead: bool,
+    /// index of the channel's output in the funding transaction (a change output comes first when 1)
+    #[serde(default)]
+    pub fvout: u32,
     pub devs: Vec<Dev>,
 }
 
@@ -312,6 +315,8 @@ struct Res {
     refused: bool,
     panic: bool,
     skipped: bool,
+    /// the monitor's chain state differs from the chain the harness delivered
+    facts_mismatch: bool,
     ref_ok: bool,
     ref_why: String,
     vio: Option<(String, String)>,
@@ -351,10 +356,14 @@ fn run_case(case: &Case) -> Res {
     // a funding transaction the harness can put on chain
     let funding_tx = simple_tx(
         vec![OutPoint { txid: lightning_signer::bitcoin::Txid::from_raw_hash(lightning_signer::bitcoin::hashes::Hash::from_byte_array([0x71; 32])), vout: 0 }],
-        vec![(e.v.value, ChanParams { setup: setup.clone(), holder_pubkeys: holder_pubkeys.clone() }.funding_redeemscript().to_p2wsh())],
+        {
+            let f = (e.v.value, ChanParams { setup: setup.clone(), holder_pubkeys: holder_pubkeys.clone() }.funding_redeemscript().to_p2wsh());
+            // with fvout = 1 a change output precedes the channel's output
+            if case.fvout == 1 { vec![(12_345, foreign_script(7)), f] } else { vec![f] }
+        },
         0,
     );
-    setup.funding_outpoint = OutPoint { txid: funding_tx.compute_txid(), vout: 0 };
+    setup.funding_outpoint = OutPoint { txid: funding_tx.compute_txid(), vout: case.fvout };
     r.calls += 1;
     let before = if crate::monitors::grid_monitors() { Some(w.snapshot()) } else { None };
     let so = w.setup_channel(DBID, &setup);
@@ -464,9 +473,10 @@ fn run_case(case: &Case) -> Res {
     // the harness's facts must agree with what the monitor derived (self-check of the oracle's inputs)
     if let Some(cs) = ch.w.peek_chan(DBID, |c| c.monitor.as_chain_state()) {
         if cs.current_height != e.facts.height || cs.funding_depth != e.facts.funding_depth || cs.closing_depth != e.facts.closing_depth {
-            r.skipped = true;
-            r.class = format!("chain-facts-mismatch:{:?} vs {:?}", cs, e.facts);
-            return r;
+            // The facts are those of the blocks the harness delivered (funding confirmed / spent,
+            // heights); a monitor that derived something else is not a reason to look away: the
+            // case goes on and is judged by the delivered chain.
+            r.facts_mismatch = true;
         }
     }
     if ch.approve_out(&e.c).is_err() {
@@ -704,26 +714,31 @@ fn bases(tier: Tier) -> Vec<Case> {
                         let chain = if onchain { 1 } else { 0 };
                         let f = chain_facts(chain);
                         let cltv = f.height + 6;
-                        v.push(Case { pol, onchain, ucs, chain, v: sv.clone(), ctype, entry: Entry::Setup, n: 0, c: balanced(&sv, initial_holder_total(&sv), vec![], vec![], 1000), other_ahead: false, devs: vec![] });
+                        v.push(Case { pol, onchain, ucs, chain, v: sv.clone(), ctype, entry: Entry::Setup, n: 0, c: balanced(&sv, initial_holder_total(&sv), vec![], vec![], 1000), other_ahead: false, fvout: 0, devs: vec![] });
                         for entry in [Entry::SignCp, Entry::Validate] {
                             // initial commitment
-                            v.push(Case { pol, onchain, ucs, chain, v: sv.clone(), ctype, entry, n: 0, c: balanced(&sv, initial_holder_total(&sv), vec![], vec![], 1000), other_ahead: false, devs: vec![] });
+                            v.push(Case { pol, onchain, ucs, chain, v: sv.clone(), ctype, entry, n: 0, c: balanced(&sv, initial_holder_total(&sv), vec![], vec![], 1000), other_ahead: false, fvout: 0, devs: vec![] });
                             // a later commitment with one offered and one received HTLC
                             let ht = if outbound { sv.value - 1_000_000 } else { 1_000_000 };
                             let c1 = balanced(&sv, ht, vec![H { value_sat: 20_000, hash: 2, cltv }], vec![H { value_sat: 25_000, hash: 1, cltv: cltv + 1 }], 1000);
-                            v.push(Case { pol, onchain, ucs, chain, v: sv.clone(), ctype, entry, n: 1, c: c1.clone(), other_ahead: false, devs: vec![] });
+                            v.push(Case { pol, onchain, ucs, chain, v: sv.clone(), ctype, entry, n: 1, c: c1.clone(), other_ahead: false, fvout: 0, devs: vec![] });
                             if pol != 2 {
-                                v.push(Case { pol, onchain, ucs, chain, v: sv.clone(), ctype, entry, n: 1, c: c1, other_ahead: true, devs: vec![] });
+                                v.push(Case { pol, onchain, ucs, chain, v: sv.clone(), ctype, entry, n: 1, c: c1, other_ahead: true, fvout: 0, devs: vec![] });
                             }
                             // and one without HTLCs
                             let c2 = balanced(&sv, ht, vec![], vec![], 1000);
-                            v.push(Case { pol, onchain, ucs, chain, v: sv.clone(), ctype, entry, n: 1, c: c2, other_ahead: false, devs: vec![] });
+                            v.push(Case { pol, onchain, ucs, chain, v: sv.clone(), ctype, entry, n: 1, c: c2, other_ahead: false, fvout: 0, devs: vec![] });
                         }
                     }
                 }
             }
         }
     }
+    // the channel's output is not always the first of its funding transaction: every base under the
+    // on-chain validator (whose verdict depends on what the monitor saw on chain) also with a change
+    // output in front of it
+    let with_change: Vec<Case> = v.iter().filter(|c| c.onchain && c.entry != Entry::Setup && c.n == 1).map(|c| { let mut c = c.clone(); c.fvout = 1; c }).collect();
+    v.extend(with_change);
     v
 }
 
@@ -800,6 +815,7 @@ pub fn main(tier: Tier) -> i32 {
     }
     let budget = tier.pick(45.0, 1500.0);
     let (mut evals, mut calls, mut acc, mut refu, mut panics, mut skipped, mut acc_nonbase, mut ref_rejects) = (bs.len() as u64, 0u64, 0u64, 0u64, 0u64, 0u64, 0u64, 0u64);
+    let mut facts_mismatches = 0u64;
     let mut classes: BTreeSet<String> = BTreeSet::new();
     let mut skip_classes: BTreeSet<String> = BTreeSet::new();
     let mut complete = true;
@@ -820,6 +836,9 @@ pub fn main(tier: Tier) -> i32 {
             }
             evals += 1;
             calls += r.calls;
+            if r.facts_mismatch {
+                facts_mismatches += 1;
+            }
             if r.accepted {
                 acc += 1;
                 acc_nonbase += 1;
@@ -862,6 +881,7 @@ pub fn main(tier: Tier) -> i32 {
         "cases_generated": cases.len(),
         "cases_run": done,
         "not_constructible": skipped,
+        "monitor_chain_state_differs_from_delivered_chain": facts_mismatches,
         "not_constructible_kinds": skip_classes,
         "accepted": acc,
         "accepted_deviating_cases": acc_nonbase,
